@@ -9,32 +9,18 @@ Open Scope string_scope.
 Open Scope list_scope.
 
 (* ---------------------------------------------------------------- outcome set *)
-Definition C05_outcomes_full : Prop :=
-  forall c d, plain c -> documented c d (from_dict c d).
-
-Theorem C05_outcomes_partial : forall c d, plain c -> cs_fields c <> [] ->
-  documented c d (from_dict c d).
+(* holds for every class, field-less ones included (since fix abe4c99 they go through the same frame) *)
+Theorem C05_outcomes : forall c d, plain c -> documented c d (from_dict c d).
 Proof. exact outcomes. Qed.
-Print Assumptions C05_outcomes_partial.
+Print Assumptions C05_outcomes.
 
-Definition E0 : cspec := mk_class "E0" [] false [].
-
-Theorem C05_outcomes_refuted : ~ C05_outcomes_full.
-Proof.
-  intro H. specialize (H E0 (VInt 5) (conj eq_refl eq_refl)).
-  rewrite (fieldless_accepts_anything E0 (VInt 5) (conj eq_refl eq_refl) eq_refl) in H.
-  inversion H; discriminate.
-Qed.
-Print Assumptions C05_outcomes_refuted.
-
-Theorem C05_value_error_iff_partial : forall c d, plain c -> cs_fields c <> [] ->
+Theorem C05_value_error_iff : forall c d, plain c ->
   (from_dict c d = Exn XValueError <-> is_dict d = false).
 Proof. exact value_error_iff. Qed.
-Print Assumptions C05_value_error_iff_partial.
+Print Assumptions C05_value_error_iff.
 
 (* user hooks: whatever else escapes was raised by the user's own hook / __post_init__ *)
 Theorem C05_hooks : forall c d0,
-  cs_fields c <> [] ->
   let c0 := {| cs_name := cs_name c; cs_fields := cs_fields c; cs_forbid_extra := cs_forbid_extra c;
                cs_discr_keys := cs_discr_keys c; cs_pre := None; cs_post := None |} in
   match cs_pre c with
@@ -62,7 +48,7 @@ Theorem C05_first_bad : forall c kvs pre f post b,
 Proof. exact first_bad_decides. Qed.
 Print Assumptions C05_first_bad.
 
-Theorem C05_all_good_ok : forall c kvs, plain c -> cs_fields c <> [] ->
+Theorem C05_all_good_ok : forall c kvs, plain c ->
   (cs_forbid_extra c = true -> extra_keys c kvs = []) ->
   Forall (fun g => field_bad kvs g = None) (cs_fields c) ->
   from_dict c (VDict kvs) = Ok (good_instance c kvs).
@@ -70,27 +56,17 @@ Proof. exact all_good_ok. Qed.
 Print Assumptions C05_all_good_ok.
 
 (* ---------------------------------------------------------------- extra keys *)
-Definition C05_extra_exact_full : Prop := forall c kvs, plain c ->
-  cs_forbid_extra c = true -> extra_keys c kvs <> [] ->
-  from_dict c (VDict kvs) = Exn (XExtraKeys (extra_keys c kvs) (cs_name c)).
-
-Theorem C05_extra_exact_partial : forall c kvs, plain c -> cs_fields c <> [] ->
+Theorem C05_extra_exact : forall c kvs, plain c ->
   cs_forbid_extra c = true -> extra_keys c kvs <> [] ->
   from_dict c (VDict kvs) = Exn (XExtraKeys (extra_keys c kvs) (cs_name c)) /\
   forall k, In k (extra_keys c kvs) <-> In k (map fst kvs) /\ key_allowed c k = false.
-Proof. intros c kvs Hp Hn Hf He. split; [exact (extra_exact c kvs Hp Hn Hf He)|apply extra_keys_spec]. Qed.
-Print Assumptions C05_extra_exact_partial.
-
-Definition E0F : cspec := mk_class "E0F" [] true [].
-Theorem C05_extra_exact_refuted : ~ C05_extra_exact_full.
-Proof.
-  intro H. specialize (H E0F [(VStr "a", VInt 1)] (conj eq_refl eq_refl) eq_refl).
-  cbv in H. assert (E: [VStr "a"] <> []) by discriminate. specialize (H E). discriminate H.
-Qed.
-Print Assumptions C05_extra_exact_refuted.
+Proof. intros c kvs Hp Hf He. split; [exact (extra_exact c kvs Hp Hf He)|apply extra_keys_spec]. Qed.
+Print Assumptions C05_extra_exact.
 
 (* ---------------------------------------------------------------- never a silent None / default *)
-Theorem C05_no_silent_default_partial : forall c d r, plain c -> cs_fields c <> [] ->
+(* "_partial": at this level the decoders are opaque; a decoder that itself maps garbage to None
+   (union with a None member, see C05_union_rejects_garbage_refuted) is outside this statement *)
+Theorem C05_no_silent_default_partial : forall c d r, plain c ->
   from_dict c d = Ok r ->
   exists kvs, d = VDict kvs /\ r = good_instance c kvs /\
     forall f, In f (cs_fields c) ->
@@ -207,6 +183,15 @@ Definition A : cspec := mk_class "A"
 
 Example C05_nonvacuous_plain : plain A /\ cs_fields A <> [].
 Proof. split; [split; reflexivity|discriminate]. Qed.
+(* field-less classes: E0.from_dict(5) -> ValueError, E0F.from_dict({"a": 1}) -> ExtraKeysError({"a"}) *)
+Definition E0 : cspec := mk_class "E0" [] false [].
+Definition E0F : cspec := mk_class "E0F" [] true [].
+Example C05_ex_fieldless_nonmapping : from_dict E0 (VInt 5) = Exn XValueError /\ from_dict E0F (VInt 5) = Exn XValueError.
+Proof. split; reflexivity. Qed.
+Example C05_ex_fieldless_ok : from_dict E0 (VDict [(VStr "a", VInt 1)]) = Ok (VObj "E0" []).
+Proof. reflexivity. Qed.
+Example C05_ex_fieldless_extra : from_dict E0F (VDict [(VStr "a", VInt 1)]) = Exn (XExtraKeys [VStr "a"] "E0F").
+Proof. reflexivity. Qed.
 Example C05_ex_ok : from_dict A (VDict [(VStr "a", VInt 1); (VStr "b", VStr "2020-01-01")])
   = Ok (VObj "A" [("a", VInt 1); ("b", VLeaf "date" "2020-01-01"); ("c", VInt 7)]).
 Proof. reflexivity. Qed.
